@@ -42,6 +42,7 @@ func checkC18(c *Ctx) {
 	c.Rule("C18.R4", "reload coverage: every field of config.Compiled read by start-up-only code is also read by the restart-required predicate or by the live (per-request / apply) code")
 	c.Rule("C18.R5", "atomic file replace typestate (both copies): temp file in the target directory, Write ≺ Sync ≺ Close ≺ Rename ≺ directory sync, every error returned, success only after all")
 	c.Rule("C18.R6", "only the atomic writer replaces the config file: file-writing sinks in packages app and mcp are reachable only through named constructs")
+	c.Rule("C18.R9", "the apply step of a reload never reads a runtimeState field after it has replaced it (derived decisions such as keeping an object when its configuration is unchanged are computed from the previous state, not from the value just written)")
 	c.Rule("C18.R8", "the bytes read from the config file are immutable between read and restore: no function of package config writes through a []byte parameter (index store, copy into, append onto a reslice of it)")
 	c.Rule("C18.R7", "validate before write, restore on failure: the first write of a config rewrite is behind parse-ok and compile-ok of the bytes written; every error return after it passes a write of the previously read bytes (or their removal)")
 
@@ -213,6 +214,7 @@ func checkC18(c *Ctx) {
 	checkConfigWriters(c, "C18.R6")
 	checkRewriteValidateRestore(c, "C18.R7")
 	checkInputBytesImmutable(c, "C18.R8")
+	checkNoReadAfterReplace(c, "C18.R9")
 }
 
 // ---- lock analysis distinguishing the write lock ----
